@@ -175,9 +175,58 @@ func reorgProperty(rt *rapid.T, ev *evid.Rec, o machineOpts, prop string) {
 	// (The per-commit Auditor of C01/C02 is not used here: a reorg landing between
 	// two RPC calls of a step legitimately produces rows that mix two versions of a
 	// block until the next step unwinds them; the claim of C03/C04 is about quiescence.)
+	// Before every step: the highest recorded position of the pair whose hash is
+	// the canonical one at its height. An unwind walks down the recorded positions
+	// and must stop there, so if that block is still canonical when the step ends
+	// (no reorg reached it meanwhile), no row at or below it may have been touched.
+	type anchor struct {
+		ok   bool
+		num  uint64
+		hash string
+	}
+	anchors := map[string]anchor{}
+	m.beforeStep = func(p *Pair) {
+		a := anchor{}
+		p.Src.Node.Lock()
+		for _, r := range w.db.Rows("shovel.task_updates") {
+			if r["src_name"] == p.Src.Name && r["ig_name"] == p.Decl.Name {
+				n := numOf(r["num"])
+				h, _ := r["hash"].([]byte)
+				if b := p.Src.Node.Chain.At(n); b != nil && string(b.Hash) == string(h) && (!a.ok || n > a.num) {
+					a = anchor{true, n, string(h)}
+				}
+			}
+		}
+		p.Src.Node.Unlock()
+		anchors[p.Key()] = a
+	}
 	checkCommits := func(p *Pair, r StepResult) {
 		if r.Panic != nil {
 			fail("Converge panicked: %v", r.Panic)
+		}
+		if a := anchors[p.Key()]; a.ok {
+			p.Src.Node.Lock()
+			b := p.Src.Node.Chain.At(a.num)
+			still := b != nil && string(b.Hash) == a.hash
+			p.Src.Node.Unlock()
+			if still {
+				for _, c := range r.Commits {
+					for _, x := range c.Removed {
+						if x.Table == p.Decl.Table && numOf(x.Row["block_num"]) <= a.num {
+							fail("%s: a row of block %d was deleted although the recorded position %d was canonical before and after the step", p.Key(), numOf(x.Row["block_num"]), a.num)
+						}
+						if x.Table == "shovel.task_updates" && x.Row["src_name"] == p.Src.Name && x.Row["ig_name"] == p.Decl.Name && numOf(x.Row["num"]) <= a.num {
+							fail("%s: the recorded position %d was removed although position %d was canonical before and after the step", p.Key(), numOf(x.Row["num"]), a.num)
+						}
+					}
+					for _, x := range c.Added {
+						if x.Table == p.Decl.Table && numOf(x.Row["block_num"]) <= a.num {
+							fail("%s: a row of block %d was rewritten although the recorded position %d was canonical before and after the step", p.Key(), numOf(x.Row["block_num"]), a.num)
+						}
+					}
+				}
+				m.label("anchor-checked")
+			}
 		}
 		if r.After.OK && r.After.Num > st.maxEver[p.Src.Name] {
 			st.maxEver[p.Src.Name] = r.After.Num
@@ -430,6 +479,74 @@ func TestC03_KnownFindings(t *testing.T) {
 		}
 		if c := w.Cursor(p); !c.OK || c.Num != 9 {
 			return fmt.Sprintf("after a depth-1 reorg with batch 4 the task is stuck at %s (last step: %s)", curStr(c), errString(last.Err))
+		}
+		return w.CheckPair(p)
+	})
+	// fixed: a cached segment that predates a reorg was taken for a new reorg: the task
+	// unwound a position that was canonical (found by the thorough tier).
+	// batch 3 over 3 partitions = one block per cached segment, three integrations on
+	// the source = three reads per segment; positions 3, 5, 8; blocks 5.. replaced.
+	knownFinding(t, "C03", "C03/stale-cached-segment-taken-for-reorg", func() string {
+		node := sim.NewNode(sim.NewChain())
+		for i := 1; i <= 5; i++ {
+			node.Chain.Append(xferTxs(i))
+		}
+		w, err := NewWorld(quietT{}, []*SourceCfg{{Name: "src1", ChainID: 1, Batch: 3, Conc: 3, Node: node}},
+			[]*refmodel.Decl{xferDecl("a", 1, false), xferDecl("b", 1, false), xferDecl("c", 1, false)})
+		if w != nil {
+			defer w.Close()
+		}
+		if err != nil {
+			return "set-up: " + err.Error()
+		}
+		p := w.Pairs[0]
+		w.Step(p) // 1-3
+		w.Step(p) // 4-5
+		node.Lock()
+		for i := 6; i <= 8; i++ {
+			node.Chain.Append(xferTxs(i))
+		}
+		node.Unlock()
+		for i := 0; i < 6; i++ {
+			w.Step(p) // 6-8, once the cached head has expired
+		}
+		if c := w.Cursor(p); !c.OK || c.Num != 8 {
+			return "set-up: position " + curStr(c)
+		}
+		node.Lock()
+		var cs [][]sim.Tx
+		for i := 0; i < 7; i++ {
+			if i == 0 || i > 3 {
+				cs = append(cs, xferTxs(60+i))
+			} else {
+				cs = append(cs, nil) // no logs at 6-8: nothing to compare the cached headers with
+			}
+		}
+		node.Chain.Reorg(5, cs)
+		node.Unlock()
+		for i := 0; i < 12; i++ {
+			before := w.Cursor(p)
+			canonical := false
+			if b := node.Chain.At(before.Num); before.OK && b != nil && string(b.Hash) == string(before.Hash) {
+				canonical = true
+			}
+			r := w.Step(p)
+			if !canonical {
+				continue
+			}
+			for _, c := range r.Commits {
+				for _, x := range c.Removed {
+					if x.Table == "shovel.task_updates" && numOf(x.Row["num"]) <= before.Num {
+						return fmt.Sprintf("step %d removed the recorded position %d although it is canonical (%s)", i, numOf(x.Row["num"]), errString(r.Err))
+					}
+					if x.Table == p.Decl.Table && numOf(x.Row["block_num"]) <= before.Num {
+						return fmt.Sprintf("step %d deleted a row of block %d although position %d is canonical", i, numOf(x.Row["block_num"]), before.Num)
+					}
+				}
+			}
+		}
+		if c := w.Cursor(p); !c.OK || c.Num != node.Chain.Head().Num {
+			return "after the reorg the task ends at " + curStr(c)
 		}
 		return w.CheckPair(p)
 	})
